@@ -13,6 +13,7 @@ import math
 import os
 
 import extie
+import c02weights
 import gridlib as gl
 import vlib
 
@@ -88,6 +89,9 @@ def to_canonical(spec, x, j):
 def run(res, tier, seed, replay_script=None):
     props = vlib.coq_props(PID)
     vlib.proof_coverage(res, PID, props, "cd coq && make Props/Properties_C03.vo && coqc -Q . TV Props/Properties_C03.v", TRUSTED)
+    if replay_script is None:
+        # the interpolation weights are the same combination of tensor rules: tensor weights tied exactly (Properties_C02_weights.v)
+        c02weights.run(res, tier, seed)
     ex_break = extie.run(res, PID)      # the exactness tables re-translated from the source, compared with the library and re-proved monotone / bounded
     proof_broken = (not props["ok"]) or bool(res.coverage["forbidden_tokens"])
     drv = vlib.build_driver("tsgdrv")
